@@ -8,8 +8,8 @@ PROP = dict(
                '(and sampled two-step deviations), sent by a scripted well-keyed peer whose Finished is honest for the deviated trace, judged by an explicit model of the '
                'legal message language. Finds state-machine omissions (skipped/repeated/reordered/foreign messages, CCS placement, Finished checks); proves nothing beyond '
                'the explored traces.',
-    level_note='Trusted: the scripted peer harness/puppet12 (libcrypto primitives only; its un-deviated script must interoperate with MatrixSSL in both roles - checked '
-               'at every target start, signature harness-puppet-selftest); the model of the legal language in props/C06/seq12.cc (RFC 5246 7.3; HelloRequest to a client, '
+    level_note='Trusted: the scripted peer harness/puppet12 (libcrypto primitives only; its un-deviated script must complete against MatrixSSL in exactly the mode of a case - handshake, Finished, data both ways, EMS/resumption as expected - '
+               'before the first case of that mode is judged in a process, signature harness-puppet-selftest); the model of the legal language in props/C06/seq12.cc (RFC 5246 7.3; HelloRequest to a client, '
                'warning alerts, renegotiation ClientHello, false-start data and re-tagged bodies are "receiver may refuse": only the safety invariants are checked); '
                'the harness follows the documented caller contract of matrixsslApi.c; entropy/clock pinned by ld --wrap.',
     technique='property-based testing: model-based trace mutation with a scripted keyed peer (state-machine fuzzing in the style of SMACK / EarlyCCS), history monitor on completion and delivery',
@@ -27,10 +27,10 @@ PROP = dict(
     targets=[
         # random: 0-2 deviations (mostly two-step) x framing variations x EMS pairings x resumption
         dict(name='c06_seq12', src=_SRC12, libs=['-lcrypto'], wraps=WRAPS, env={'VERIF_DIR': '/verif'},
-             quick=dict(cases=1600, secs=45), thorough=dict(cases=60000, secs=540)),
-        # bounded-exhaustive: every single-step deviation of every legal trace (48 modes), default framing; quick runs every 6th index (offset = seed mod 6)
+             quick=dict(cases=3200, secs=60), thorough=dict(cases=60000, secs=540)),
+        # bounded-exhaustive: every single-step deviation of every legal trace (48 modes), default framing; quick runs every 3rd index (offset = seed mod 3)
         dict(name='c06_seq12_singles', src=_SRC12, libs=['-lcrypto'], wraps=WRAPS, env={'VERIF_DIR': '/verif'}, defs=['C06_ENUM'], enumerate=True,
-             quick=dict(cases=0, secs=45, stride=6), thorough=dict(cases=0, secs=360, stride=1)),
+             quick=dict(cases=0, secs=60, stride=3), thorough=dict(cases=0, secs=360, stride=1)),
     ],
 )
 _r13 = os.path.join(os.path.dirname(os.path.abspath(__file__)), 'reg13.py')
